@@ -75,6 +75,11 @@ impl Rng {
         }
         v
     }
+    /// random bytes of a random length in 0..n
+    pub fn bytes_below(&mut self, n: usize) -> Vec<u8> {
+        let l = self.usize(n.max(1));
+        self.bytes(l)
+    }
     pub fn b32(&mut self) -> [u8; 32] {
         let mut o = [0u8; 32];
         for i in 0..4 {
@@ -463,12 +468,21 @@ pub fn load_known() -> Vec<KnownFinding> {
     let v: Value = serde_json::from_str(&s).expect("known_findings.json parses");
     let mut out = vec![];
     for e in v["findings"].as_array().cloned().unwrap_or_default() {
-        out.push(KnownFinding {
-            property: e["property"].as_str().unwrap_or("").to_string(),
-            signature: e["signature"].as_str().unwrap_or("").to_string(),
-            status: e["status"].as_str().unwrap_or("").to_string(),
-            what: e["what"].as_str().unwrap_or("").to_string(),
-        });
+        let mut sigs: Vec<String> = e["signatures"]
+            .as_array()
+            .map(|a| a.iter().filter_map(|x| x.as_str().map(|s| s.to_string())).collect())
+            .unwrap_or_default();
+        if let Some(s) = e["signature"].as_str() {
+            sigs.push(s.to_string());
+        }
+        for s in sigs {
+            out.push(KnownFinding {
+                property: e["property"].as_str().unwrap_or("").to_string(),
+                signature: s,
+                status: e["status"].as_str().unwrap_or("").to_string(),
+                what: e["what"].as_str().unwrap_or("").to_string(),
+            });
+        }
     }
     out
 }
